@@ -130,7 +130,27 @@ def main(argv):
         smt_ms += sum(r.fn_times.values())
         for ln, nm in r.trusted:
             trusted.append(nm)
+    # Modular verification: a caller is proved against its callees' contracts.  If a contract of a function that an in-scope function
+    # (transitively) calls is rejected, the proofs of this property may rest on a contract that no longer holds: that is UNDECIDED for
+    # this property (never 'held'), unless the rejected clause is tagged for it (then it is a violation, below).
+    import re as _re2
+    callee_closure = set(scope_fns)
+    for r in results:
+        names = {}
+        for (a, b, k) in r.g.fn_ranges:
+            names.setdefault(k.split('::')[-1], set()).add(k)
+        body = {k: '\n'.join(r.g.lines[a - 1:b]) for (a, b, k) in r.g.fn_ranges}
+        work = [k for k in callee_closure if k in body]
+        while work:
+            k = work.pop()
+            for nm in set(_re2.findall(r'\b([A-Za-z_][A-Za-z0-9_]*)\s*(?:::<[^>]*>)?\(', body[k])):
+                for k2 in names.get(nm, ()):
+                    if k2 not in callee_closure:
+                        callee_closure.add(k2)
+                        if k2 in body:
+                            work.append(k2)
     fails = []
+    callee_undecided = []
     for r in results:
         for f in r.failures:
             if f.kind == 'undecided':
@@ -141,6 +161,11 @@ def main(argv):
                 undecided.append('%s: lemma/preamble obligation failed (machinery, not repository code): %s line %d' % (r.unit, f.message, f.line))
             elif relevant(pid, f, scope_fns):
                 fails.append((r, f))
+            elif f.fnkey is not None and f.fnkey in callee_closure:
+                callee_undecided.append('%s: a contract of %s, which functions carrying this property call, is rejected (%s): the proofs of %s may rest on it' % (r.unit, f.fnkey, f.name(), pid))
+    if not fails:
+        # only when no obligation of this property itself is rejected (a rejected one is reported as a violation, below)
+        undecided.extend(callee_undecided)
     # vacuity: a property must have tagged obligations
     if not undecided and not tagged:
         undecided.append('vacuity: no tagged obligation generated for %s' % pid)
@@ -204,6 +229,30 @@ def main(argv):
             lines.append('FAILED-OBLIGATION property=%s obligation=%s (verifier undecided; concrete counterexample found on the real code)' % (pid, key))
             lines.append('VIOLATION property=%s replay=%s' % (pid, path))
             exit_code = 1
+    # thorough only: ASSUMPTION AUDIT.  Every obligation is discharged; the proofs rest on the assumed contracts of the dependencies
+    # (shims, chain model).  Run the concrete harness on the REAL code as well: an input on which the real code contradicts the
+    # property statement while the verifier accepted everything means an assumed contract is wrong -- reported as a violation with
+    # its replay (the known-finding window is excluded by the harness predicates).  It can never turn a failure into 'held'.
+    audit = None
+    if tier == 'thorough' and exit_code == 0:
+        ta = time.time()
+        hit = refute.search(pid, None, 'quick', seed + 7)
+        audit = dict(ran=True, wall_s=round(time.time() - ta, 1), counterexample_found=bool(hit),
+                     note='concrete executions of the real code through /verif/replay with the quick search budget; not part of the proof')
+        if hit:
+            os.makedirs(REPLAYS, exist_ok=True)
+            key = 'assumption-audit'
+            path = os.path.join(REPLAYS, '%s-%s.json' % (pid, hashlib.sha1(key.encode()).hexdigest()[:10]))
+            rec = dict(property=pid, failed_obligation=dict(obligation=key, kind='assumption-audit', verus_output='',
+                       note='every obligation was discharged, yet the real code contradicts the property on the input below: an assumed contract of a dependency (or the chain model) does not describe what runs'),
+                       repo=repo_state(), counterexample=hit, checker_cmd='; '.join(r.cmd for r in results))
+            with open(path, 'w') as fp:
+                json.dump(rec, fp, indent=1)
+            replays.append(path)
+            violations += 1
+            lines.append('FAILED-OBLIGATION property=%s obligation=%s (all proofs accepted; concrete counterexample found on the real code)' % (pid, key))
+            lines.append('VIOLATION property=%s replay=%s' % (pid, path))
+            exit_code = 1
     wall = time.time() - t0
     ev = dict(
         property_id=pid, tier=tier, seed=seed, level='proof',
@@ -219,6 +268,7 @@ def main(argv):
                                            rewrites=v['rewrites'], in_scope=(k in scope_fns)) for k, v in sorted(fn_infos.items())],
             units=[dict(unit=r.unit, mode=r.mode, verified=r.verified, errors=r.errors, wall_s=round(r.wall_s, 2), generated=r.gen_path) for r in results],
             stability_runs=stability,
+            assumption_audit=audit,
             vacuity_canaries=canaries,
             known_findings=kf_reports,
             undecided=undecided,
